@@ -123,6 +123,13 @@ func main() {
 			ncase = *vlib.FlagN
 		}
 		cfgs := streamConfigs(r, true, 0)
+		// the client's control API: Client.Stop after a callback asked for shutdown, and Client.Stop twice
+		for k := 0; k < 2; k++ {
+			cc := cfgs[(k+int(res.Seed))%len(cfgs)]
+			cc.ReusePort = false
+			res.Eval(runClientLifeCase(cc, res.Seed*1000519+uint64(k), r.Pick(4, 10), true, k == 0, keys))
+			res.Checkpoint()
+		}
 		for i := 0; i < ncase; i++ {
 			c := cfgs[i%len(cfgs)]
 			c.LB = []gnet.LoadBalancing{gnet.LeastConnections, gnet.SourceAddrHash}[i%2] // Engine.Register is documented as not safe with RoundRobin
